@@ -3,7 +3,7 @@ sys.path.insert(0, os.path.join(os.path.dirname(os.path.dirname(os.path.abspath(
 import vcheck
 
 T = "GeomV.C10."
-TIES = ["LongLat", "Merc", "TMerc", "UTM", "LCC", "AEA", "EqdC", "Krovak", "Registered", "Path", "Datum", "State"]
+TIES = ["LongLat", "Merc", "TMerc", "UTM", "LCC", "AEA", "EqdC", "Krovak", "Registered", "Path", "Datum", "State", "Transform"]
 CTORS = ["LongLat", "Merc", "TMerc", "UTM", "LCC", "AEA", "EqdC", "Krovak"]
 
 
@@ -16,7 +16,8 @@ def pregen(check):
     for mode, fname, marker in (("writes", "GenWrites.lean", "namespace GeomV.C10.Gen"),
                                 ("bodies", "GenBodies.lean", "def ctorBodies"),
                                 ("datum", "GenDatum.lean", "def datumShape"),
-                                ("state", "GenState.lean", "def nonlocalWrites")):
+                                ("state", "GenState.lean", "def nonlocalWrites"),
+                                ("transform", "GenTransform.lean", "def transform3 : Fn")):
         out = os.path.join(vcheck.LEAN, "GeomV", "C10", fname)
         with vcheck.Lock("go"):
             p = subprocess.run(["go", "run", "./cmd/c10/astwrites", os.path.join(vcheck.REPO, "proj"), mode], cwd=vcheck.HARNESS,
@@ -45,6 +46,7 @@ CFG = {
     ]] + [T + "tie_" + t for t in TIES] + [T + "tie_body_" + t for t in CTORS] + [T + n for n in [
         "C10_src_init_total", "C10_src_init_idempotent", "C10_src_init_frame",
         "C10_datum_frame", "C10_datum_pure", "C10_datum_history", "C10_pure_with_datums", "C10_step_datums_frame",
+        "tie_transform3", "tie_closure", "tie_checkNotWGS", "tie_TransformConsts",
         "C10_mem_refines", "C10_mem_refines_flat", "C10_mem_refines_nil", "C10_mem_vertices", "C10_mem_input_kept",
     ]],
     "trusted_base": [
@@ -52,6 +54,7 @@ CFG = {
         "Mem.lean (memory model of the eight Transform methods behind C10_input_unchanged) refines the functional model GeomTransform.lean by theorem C10_mem_refines (all types, nesting, layouts); additionally, on every gt line the judge lays the input out in a Mem as the harness does (separate arrays / windows of one buffer / prefix re-slices), runs Mem.transformTop and compares the decoded result with the functional model (hence with the implementation); the real slices are compared before/after/after scribbling",
         "Ctors.lean (constructors' writes): write SETS, VALUES and CONDITIONS are re-extracted from the Go source by go/ast on every run (GenWrites.lean, GenBodies.lean) and proved equal to the model (Ties/*.lean: tie_<Ctor> by decide, tie_body_<Ctor> for every SR and float semantics); trusted: the extractor's slicing rule (harness/cmd/c10/astwrites/body.go) and the naming of Go literals / math.* functions as uninterpreted POps operations (CtorIR.lean); also covered at run time by the state dumps (every SR = as parsed or after one constructor run) and the wd records",
         "Datum.lean (datumTransform on a heap of *datum objects) is a hand transcription with abstract callees; its save/defer-restore shape is re-extracted from the source on every run (GenDatum.lean, tie_Datum) and its callees' write-freedom by tie_Path; at run time the reflection dumps include the unexported datum",
+        "Transformer.lean's stepNoHop/body (= transform3), step (= the closure returned by NewTransform) and notWGS (= checkNotWGS) are no longer only hand-modelled: the WHOLE bodies are re-translated from the Go source statement by statement on every run (astwrites mode transform -> GenTransform.lean, little language TransformIR.lean with Go's semantics for the point slice, err, shadowed/captured *SR variables, bound function values) and proved equal to the model for every heap, Core and float semantics (tie_transform3, tie_closure, tie_checkNotWGS, composed in tie_Transform; constants in tie_TransformConsts); trusted there: the translator harness/cmd/c10/astwrites/transform.go (one syntactic form per IR constructor, everything else `.other` = stuck) and the interpreter's reading of the abstract callees (Transformers() = Core.init on the cell, forward/inverse evaluated on the cell's record at call time, datumTransform = Core.dt, adjust_axis = the model's adjustAxis, Parse(\"WGS84\") = the registry cell, one `err` cell per body)",
         "model lean/GeomV/C10/{GeomTransform,Transformer}.lean is tied to /repo/transform.go and /repo/proj/{transform,adjust_axis}.go by the correspondence run on every check: "
         "Geom.Transform results compared exactly (bit patterns); transformer results compared bit-for-bit with the model instantiated by oracle tables "
         "(projection forward/inverse, constructor errors through the exported API; datumTransform through hook proj.VerifDatumTransform, build tag verif) filled from the real code, and the SR objects' full "
